@@ -1687,7 +1687,7 @@ pub fn main(cli: &Cli) -> i32 {
         "not_run": ["VICE adapter"]
     }));
     ev.assumptions = vec![
-        "programs keep only return addresses on the stack inside subroutines (stepOut reads the return address from the stack top)".into(),
+        "subroutines return with rts to their caller (the reference tracks activations by counting jsr and rts); pushes inside a subroutine are balanced before it returns".into(),
         "a breakpoint set while the machine runs is judged only for instructions after a position observed after the setBreakpoints response".into(),
         "fairness: no runnable thread is stalled for more than 1 s of simulated time".into(),
     ];
